@@ -347,10 +347,15 @@ func VerifC19_Stream() {
 	if dryAfter == 0 {
 		verif.Assume(p.DryUp() == nil) // precondition of this harness ("dryup_ok"), not a clause of the property
 	}
+	// "GetNext without HasNext works": while items are still to come and the stream has not been told that it is
+	// drying up, the caller may also ask for the next item straight away -- also across the link to a future page
+	bare := verif.Bool("getNextWithoutHasNext")
 	for k := 0; k <= total+1; k++ {
-		has := p.HasNext()
-		if !has {
-			break
+		if !(bare && cursor < total && !p.IsRunningDry()) {
+			has := p.HasNext()
+			if !has {
+				break
+			}
 		}
 		item, err := p.GetNext()
 		verif.Assert("getnext_succeeds", err == nil)
